@@ -40,6 +40,54 @@ type Contract struct {
 	CutLoops    map[int]bool // loops at whose head everything but the precondition and the invariants is forgotten
 	Line        int
 	Props       []string
+	renames     map[string]string // identifier of the contract -> name the code uses now (see Env.evalRenaming)
+	mentioned   map[string]bool
+}
+
+// mentionedIdents: every identifier that occurs in a clause of the contract.
+func (c *Contract) mentionedIdents() map[string]bool {
+	if c.mentioned != nil {
+		return c.mentioned
+	}
+	c.mentioned = map[string]bool{}
+	var walk func(e *Expr)
+	walk = func(e *Expr) {
+		if e == nil {
+			return
+		}
+		if e.Kind == "ident" {
+			c.mentioned[e.Name] = true
+		}
+		walk(e.X)
+		walk(e.Y)
+		walk(e.Z)
+		for _, a := range e.Args {
+			walk(a)
+		}
+		for _, p := range e.Pats {
+			for _, x := range p {
+				walk(x)
+			}
+		}
+	}
+	for _, cl := range c.Requires {
+		walk(cl.Expr)
+	}
+	for _, cl := range c.Ensures {
+		walk(cl.Expr)
+	}
+	for _, cl := range c.Panics {
+		walk(cl.Expr)
+	}
+	for _, m := range c.Modifies {
+		walk(m)
+	}
+	for _, invs := range c.Invs {
+		for _, cl := range invs {
+			walk(cl.Expr)
+		}
+	}
+	return c.mentioned
 }
 
 type Contracts struct {
